@@ -101,3 +101,48 @@ Theorem C17_source_wiring : forall cfg parser,
      else const = 0) /\
     hd_error l = Some (EAutoFFC true).
 Proof. exact wiring_facts. Qed.
+
+(* ---- source tie: the test-recording request, as cmd/thermal-recorder/snapshot.go and service.go are now ----
+   coq/translated/Snapshot.v (regenerated on every run), model/SnapExt.v, proofs/TieSnap.v - see props/C16.v.
+   For EVERY state of the modelled world (no side condition): *)
+From TR Require Import translated.Snapshot model.SnapExt proofs.TieSnap.
+
+(* newSnapshotRecording never panics; result, final world and added log are the hand-written description *)
+Theorem C17_source_request_tie : forall w,
+  src_newSnapshotRecording w = Ok (rec_ret w) (rec_world w).
+Proof. exact tie_newSnapshotRecording. Qed.
+
+(* an error iff there is no processor yet - "reading from camera has not started yet"; nothing is set then and only
+   the variable processor is read *)
+Theorem C17_source_request_error_iff : forall w,
+  (rec_ret w <> 0 <-> sw_proc w = None) /\
+  (sw_proc w = None -> err_msg (rec_world w) (rec_ret w) = Some MSG_NOT_STARTED /\ sw_proc (rec_world w) = None /\
+                       filter is_shared (rec_log w) = [ERead SProcessor]).
+Proof. exact request_error_iff. Qed.
+
+(* otherwise nil, and StartSnapshot is written exactly once, with true - the only write of the request; CurrentFrame
+   and the recent frame are untouched *)
+Theorem C17_source_request_sets_flag_once : forall w p,
+  sw_proc w = Some p ->
+  rec_ret w = 0 /\
+  sw_proc (rec_world w) = Some (mkProc (po_cur p) (po_recent p) true) /\
+  List.length (filter (fun e => match e with EWrite SStartSnapshot => true | _ => false end) (rec_log w)) = 1%nat /\
+  filter (fun e => match e with EWrite _ => true | _ => false end) (rec_log w) = [EWrite SStartSnapshot].
+Proof. exact rec_sets_flag_once. Qed.
+
+(* locking: Lock first, Unlock last, once each, on both paths - also seen from TakeTestRecording *)
+Theorem C17_source_request_locked : forall w,
+  (exists r w', src_newSnapshotRecording w = Ok r w' /\ disciplined (log_since w w') = true) /\
+  (exists r w', src_TakeTestRecording w = Ok r w' /\ disciplined (log_since w w') = true).
+Proof. exact (fun w => conj (newSnapshotRecording_locked w) (TakeTestRecording_locked w)). Qed.
+
+(* TakeTestRecording maps the result as written: nil, or
+   &dbus.Error{Name: "org.cacophony.thermalrecorder.TakeSnapshotRecording", Body: [err.Error()]} *)
+Theorem C17_source_request_service : forall w,
+  src_TakeTestRecording w = Ok (fst (tr_out w)) (snd (tr_out w)) /\
+  match sw_proc w with
+  | Some p => fst (tr_out w) = 0 /\ sw_proc (snd (tr_out w)) = Some (mkProc (po_cur p) (po_recent p) true)
+  | None => dbus_of (snd (tr_out w)) (fst (tr_out w)) = Some (NAME_TAKE_RECORDING, Some [MSG_NOT_STARTED]) /\
+            fst (tr_out w) <> 0 /\ sw_proc (snd (tr_out w)) = None
+  end.
+Proof. exact (fun w => conj (tie_TakeTestRecording w) (TakeTestRecording_result w)). Qed.
